@@ -149,8 +149,9 @@ CHECKS = {
             "non-negative guess incl. all-zero rows, algorithm mu/pdnr/pqnr, option set) run under a "
             "simulated clock with the deadline fired at EVERY outer-iteration boundary in turn (complete "
             "enumeration per problem) plus sampled clock kinds (backward jump, freeze, elapsed==stoptime, "
-            "stoptime=0, clock running backwards); the C11 contract is checked at every return and a cut by "
-            "time must equal the cut by count. Non-trivial = at least one deadline cut executed or >= 3 solves; "
+            "stoptime=0, clock running backwards), and -- in half of the runs -- a solve, an in-place edit of the caller's "
+            "data object (one count moved; same shape and nnz) and a second solve; the C11 contract is checked at every "
+            "return, a cut by time must equal the cut by count, and the solve after the edit must equal a solve on a copy. Non-trivial = at least one deadline cut executed or >= 3 solves; "
             "distinct = distinct digest of (problem, steps, observations)."
         ),
         "state_measure": "hash of (algorithm, order, dense/sparse, rank, random/explicit guess, iterations of the baseline, step kind, deadline position / clock kind, precompinds, inexact)",
@@ -178,7 +179,7 @@ CHECKS = {
         "rule": (
             "one case = one run of kind samplers (3-16 sampler calls), stochastic (2-5 solves on one SGD/Adam/Adagrad "
             "object) or lbfgsb (2-4 solves on one LBFGSB object), with collaborator faults injected into ~25% of the "
-            "solves. Non-trivial = >= 2 solves returned and checked, or >= 3 sampler triples checked; distinct = "
+            "solves; sampler runs end with a sampler built after an in-place edit of the data. Non-trivial = >= 2 solves returned and checked, or >= 3 sampler triples checked; distinct = "
             "distinct digest of (configuration, steps, observations)."
         ),
         "state_measure": "hash of (optimizer class, loss, sparse?, epochs/iterations, index of the solve on the object, aborted-before flag)",
@@ -201,7 +202,10 @@ CHECKS = {
         "thorough": {"runs": 80000, "wall": 1500},
         "chunk": 10,
         "rule": (
-            "one case = one algorithm + one sampled problem + 2-5 relation steps (each a base/variant pair); "
+            "one case = one algorithm + one sampled problem + 2-5 relation steps (each a base/variant pair) drawn from "
+            "R1 same seed, R1p same seed after unrelated calls, R1s other seed with an explicit start, R1f fresh interpreter, "
+            "R2 verbosity, R2d verbosity while the simulated deadline fires, R3 clock, R4 returned guess, R5 dense/sparse, "
+            "R6 positive scale (1e-9..1e8), R7 mode relabelling; data float or integer-typed counts; "
             "non-trivial = at least 2 pairs compared; distinct = distinct digest of (problem, steps, observations)."
         ),
         "state_measure": "hash of (algorithm, relation, order, kind of initial guess, dimorder given?)",
